@@ -35,11 +35,21 @@ SHIFT = 0.37        # a non-zero pop_control_ene_shift for the e^{dt E_shift} cl
 
 # ============================================================================ 1. design-level model checking
 def design(chk: Check):
+    # every walker with entries in -1..1 (n = 2, one electron per spin) x 4 trials x 2 half steps x 2 HS pairs:
+    # all theorems hold and nothing overflows (so none of them holds vacuously)
     r = chk.tlc("CPMC", cpmc.cfg_text(True, extra=("NoOverflow",)), name="CPMC-design")
     if r.violated:
         raise MachineryError(f"CPMC.tla: the reference model violates {r.violated_name} on the design instances:\n"
                              + "\n".join(r.stdout.splitlines()[-60:]))
     chk.note("design_states", r.states)
+    if chk.tier != "quick":
+        # entries in -2..2 (7600 instances).  Here some weights no longer fit 32 bits (e.g. 1554359985/21106928),
+        # so NoOverflow is not claimed; every theorem is conditioned on "no overflow" and must still hold.
+        r = chk.tlc("CPMC", cpmc.cfg_text(True, big=True), name="CPMC-design-big", timeout=2400)
+        if r.violated:
+            raise MachineryError(f"CPMC.tla: the reference model violates {r.violated_name} on the big design "
+                                 "instances:\n" + "\n".join(r.stdout.splitlines()[-60:]))
+        chk.note("design_big_states", r.states)
     # non-vacuity: the hypotheses of the conditional theorems are satisfiable on the same instances
     wit = ["NeverFreeSum"] if chk.tier == "quick" else ["NeverFreeSum", "NeverConstrained", "NeverDead"]
     seen = {}
